@@ -68,6 +68,10 @@ MAY_ALWAYS_RAISE = {
 }
 
 
+# batch lengths of the size sweep (around typical chunking / copy thresholds), per group of entry points
+SIZES = {'rootfind': (4096, 4097, 10000), 'bivariate': (257, 4097), 'bivariate-fit': (1025, 5003),
+         'univariate': (1025, 4097), 'gaussian-pdf': (4097,)}
+SIZE_UNIVARIATES = ('GaussianUnivariate', 'UniformUnivariate')
 _SHORTCUTS = {}
 
 
@@ -465,11 +469,17 @@ class Gen:
             for kind, a in self.array_kinds(U) + [('closed/ndarray', self.closed_uniforms())] + \
                     [(f'batch:{n}', b) for n, b in self.shortcut_batches()]:
                 yield self.mk(entry, tag, kind, make_fn, lambda a=a: {'X': a}, ['X'])
+            if cname in ('Clayton', 'Bivariate'):
+                for n in SIZES['bivariate-fit']:
+                    yield self.mk(entry, tag, f'n={n}', make_fn, lambda n=n: {'X': self.uniforms(n)}, ['X'])
         elif meth == 'check_marginal':
             vecs = self.vec_kinds(U[:, 0], lists=False) + [('closed', self.closed_uniforms()[:, 0]),
                                                            ('zeros', np.zeros(7)), ('ones', np.ones(7))]
             for kind, a in vecs:
                 yield self.mk(entry, tag, kind, lambda: self.bound(cname, meth), lambda a=a: {'u': a}, ['u'])
+            for n in SIZES['bivariate-fit']:
+                yield self.mk(entry, tag, f'n={n}', lambda: self.bound(cname, meth),
+                              lambda n=n: {'u': self.uniforms(n)[:, 0].copy()}, ['u'])
         elif meth == 'partial_derivative_scalar':
             C = self.closed_uniforms()
             variants = [None] + shortcut_params(cname)
@@ -483,6 +493,10 @@ class Gen:
                 for kind, a in self.array_kinds(pts):
                     yield self.mk(entry, tag, f'{where}/{kind}', lambda: self.bound(cname, meth),
                                   lambda a=a: {'X': a}, ['X'])
+            if meth in ('cumulative_distribution', 'probability_density', 'partial_derivative'):
+                for n in SIZES['bivariate']:
+                    yield self.mk(entry, tag, f'n={n}', lambda: self.bound(cname, meth),
+                                  lambda n=n: {'X': self.uniforms(n)}, ['X'])
             # row-level shortcuts at the ordinary parameter, and every parameter value that selects a shortcut
             # branch (literals the source compares theta / tau against) on ordinary, closed and shortcut batches
             for bname, a in self.shortcut_batches():
@@ -498,6 +512,10 @@ class Gen:
                 for (k1, a), (k2, b) in zip(self.vec_kinds(y), self.vec_kinds(v)):
                     yield self.mk(entry, tag, f'{where}/{k1}', lambda: self.bound(cname, meth),
                                   lambda a=a, b=b: {'y': a, 'V': b}, ['y', 'V'])
+            if cname == 'Clayton' and meth == 'percent_point':       # closed form: cheap at any length
+                for n in SIZES['bivariate']:
+                    yield self.mk(entry, tag, f'n={n}', lambda: self.bound(cname, meth),
+                                  lambda n=n: dict(zip(('y', 'V'), self.uniforms(n).T.copy())), ['y', 'V'])
             for var in shortcut_params(cname):
                 for where, (y, v) in (('open', (U[:6, 0], U[:6, 1])), ('closed', (C[:10, 0], C[:10, 1])),
                                       ('zeros', (np.zeros(4), U[:4, 1])), ('ones', (U[:4, 0], np.ones(4)))):
@@ -613,10 +631,17 @@ class Gen:
             kinds.append(('ndarray-constant', const))
             for kind, a in kinds:
                 yield self.mk(entry, tag, kind, make_fn, lambda a=a: {'X': a}, ['X'])
+            if cname in SIZE_UNIVARIATES:
+                for n in SIZES['univariate']:
+                    yield self.mk(entry, tag, f'n={n}', make_fn, lambda n=n: {'X': self.sample1d(n)}, ['X'])
         elif meth in ('probability_density', 'pdf', 'log_probability_density', 'cumulative_distribution', 'cdf'):
             for kind, a in self.vec_kinds(x[:12]):
                 yield self.mk(entry, tag, kind, lambda: getattr(self.uni_model(cname), meth),
                               lambda a=a: {'X': a}, ['X'])
+            if cname in SIZE_UNIVARIATES:
+                for n in SIZES['univariate']:
+                    yield self.mk(entry, tag, f'n={n}', lambda: getattr(self.uni_model(cname), meth),
+                                  lambda n=n: {'X': self.sample1d(n)}, ['X'])
         elif meth in ('percent_point', 'ppf'):
             u = self.rs.uniform(0.05, 0.95, size=9)
             u[0] = 0.0
@@ -624,6 +649,10 @@ class Gen:
             for kind, a in self.vec_kinds(u):
                 yield self.mk(entry, tag, kind, lambda: getattr(self.uni_model(cname), meth),
                               lambda a=a: {'U': a}, ['U'])
+            if cname in SIZE_UNIVARIATES:
+                for n in SIZES['univariate']:
+                    yield self.mk(entry, tag, f'n={n}', lambda: getattr(self.uni_model(cname), meth),
+                                  lambda n=n: {'U': self.rs.uniform(0.01, 0.99, size=n)}, ['U'])
         elif meth == 'sample':
             yield self.mk(entry, tag, 'n', lambda: getattr(self.uni_model(cname), meth), lambda: {'n_samples': 4}, [])
 
@@ -656,6 +685,12 @@ class Gen:
             kinds += self.array_kinds(pts.to_numpy())
             for kind, a in kinds:
                 yield self.mk(entry, tag, kind, lambda: getattr(self.gm_model(), meth), lambda a=a: {'X': a}, ['X'])
+            if meth in ('probability_density', 'pdf'):       # (the cdf is a QMC integral per row: not at this size)
+                for n in SIZES['gaussian-pdf']:
+                    yield self.mk(entry, tag, f'n={n}/DataFrame', lambda: getattr(self.gm_model(), meth),
+                                  lambda n=n: {'X': self.table(n)}, ['X'])
+                    yield self.mk(entry, tag, f'n={n}/ndarray', lambda: getattr(self.gm_model(), meth),
+                                  lambda n=n: {'X': self.table(n).to_numpy()}, ['X'])
         elif meth == 'sample':
             conds = [('none', None), ('dict', {'a': 0.3}), ('dict2', {'c': -0.2, 'a': 0.1}),
                      ('TDict', TDict({'b': 0.5})), ('Series', pd.Series({'a': 0.3}))]
@@ -737,6 +772,11 @@ class Gen:
             for (k1, a), (k2, b) in zip(self.vec_kinds(lo, lists=False), self.vec_kinds(hi, lists=False)):
                 yield self.mk(entry, tag, k1, lambda: fn,
                               lambda a=a, b=b: {'f': (lambda x: x ** 3 - c), 'xmin': a, 'xmax': b}, ['xmin', 'xmax'])
+            for n in SIZES['rootfind']:          # size sweep: behaviour must not depend on the batch length
+                cn = self.rs.uniform(0.5, 7.0, size=n)
+                yield self.mk(entry, tag, f'n={n}', lambda: fn,
+                              lambda cn=cn, n=n: {'f': (lambda x: x ** 3 - cn), 'xmin': np.zeros(n),
+                                                  'xmax': np.full(n, 3.0)}, ['xmin', 'xmax'])
         elif modname == 'copulas.bivariate.utils':
             from copulas.bivariate.utils import split_matrix
             for kind, a in self.array_kinds(self.uniforms()) + [('empty', np.zeros((0, 2)))]:
